@@ -37,6 +37,8 @@ def gen_case(rng, idx, tier):
         return SRC.gen(rng, tier, kinds=['lp', 'milp'], outcomes=out)
     if r < 0.262:
         return SRC.gen(rng, tier, kinds=['msplit'])
+    if r < 0.33:
+        return SRC.gen(rng, tier, kinds=['bknap'])
     return SRC.gen(rng, tier)
 
 
@@ -53,10 +55,10 @@ def run_case(spec, ctx):
         return {'status': 'skip', 'reason': 'rsome raised at build: %s' % type(e).__name__}
     cls = C.cone_class(f)
     names = C.solvers_for(f)
-    if src['kind'] == 'msplit':
+    if src['kind'] in ('msplit', 'bknap'):
         # the only integer programs that also go to ECOS' branch and bound (attributed through
         # the direct call like every other discrepancy)
-        names = ['def', 'ort', 'grb', 'eco']
+        names = ['def', 'ort', 'grb', 'eco'] if cls in ('L', 'LI') else ['grb', 'eco']
     outcome = src['spec'].get('outcome', 'optimal')
     sols = {}
     detail = []
